@@ -564,6 +564,8 @@ class Exec(Ops):
       if not items:
         raise OutsideSubset(f'empty list literal without a sort hint (line {n.lineno}); add locals=... in the sidecar')
       s0 = self.sort_of(items[0])
+      if s0 is None and getattr(self.spec, 'comp_elem_hint', None) is not None:
+        s0 = self.spec.comp_elem_hint
       if s0 is None:
         raise OutsideSubset(f'list literal of untyped items (line {n.lineno})')
       hint = SeqOf(s0)
